@@ -1161,6 +1161,12 @@ def run_bright(ctx, idx):
     rng = _set_case(ctx, idx, 5)
     n = int(rng.integers(1, 7))
     shape = (int(rng.integers(1, 25)), int(rng.integers(1, 40)))
+    if idx % 12 == 7:
+        # many events of small images: event counts around powers of two and other round
+        # numbers (implementations that read the data block-wise)
+        n = int(rng.choice([64, 100, 127, 128, 255, 256, 257, 500, 512, 513]))
+        shape = (int(rng.integers(2, 6)), int(rng.integers(2, 8)))
+        ctx.count(f"bright_cases_with_many_events[{n}]")
     img, bg, mask, dt = G.gen_images(rng, n, shape)
     ctx.count(f"image_dtype[{dt}]")
     offs = G.gen_offsets(rng, n)
